@@ -43,15 +43,15 @@ let split_on c s = List.filter (fun x -> x <> "") (String.split_on_char c s)
    burst * 1e-13 token = burst/10^4 units (a 10x safety factor is applied) *)
 let band_of burst = min 1000 (max 1 (burst / 1000))
 
-let run_limiter (parts : string list) : string =
-  let f = fields parts in
-  let o = set_default (c15_opts f) in
+let limiter_core o f : string =
   let ops = split_on ',' (fld f "ops") in
   let band = band_of (int_of_z o.o_burst) in
   let t = ref 0 in
   let tbl = ref [] in
   let tainted = ref [] in
   let nband = ref 0 in
+  let len_amb = ref false in
+  let real_clock = (fld_opt f "clock" = Some "real") in
   let dec = Buffer.create 64 in
   let hist = ref [] in
   List.iter (fun op ->
@@ -72,9 +72,31 @@ let run_limiter (parts : string list) : string =
       t := !t + int_of_string dt;
       let e = EvGc (z_of_int !t) in
       hist := e :: !hist;
+      (* the collector's "has refilled completely" test (TokensAt(now) >= burst) within the band of an idle entry:
+         float64 may decide either way; the two outcomes differ by < band tokens (covered by the decision band),
+         only the number of entries may differ *)
+      List.iter (fun (k, b) ->
+        if lim_expired (z_of_int !t) b then begin
+          let last = min (int_of_z b.b_last) !t in
+          let x = int_of_z b.b_tok + int_of_z o.o_limit * (!t - last) in
+          let full = int_of_z o.o_burst * 1000000000 in
+          if abs (x - full) < band then len_amb := true;
+          (* clock=real: the real gc() reads the clock a little after the virtual time of the g op (the generator keeps
+             lastSeen 2 s clear of its threshold for the same reason): an idle entry that becomes full within 2 s may
+             be collected by the implementation and kept by the model: only the number of entries can differ (the
+             collector is unobservable in the decisions, C15_gc_unobservable) *)
+          if real_clock && x < full && x + int_of_z o.o_limit * 2000000000 >= full then len_amb := true
+        end) !tbl;
+      (* a key whose bucket state is ambiguous (an earlier decision inside the band): the collector's "has refilled
+         completely" test may come out differently on the two sides, unless the entry has been idle for so long that
+         every possible bucket state is full (tokens > -rate always): rate * idle >= (burst + 1) tokens *)
+      let sure = List.filter (fun k -> match lim_lookup k !tbl with
+        | Some b -> int_of_z o.o_limit * (!t - int_of_z b.b_seen) >= (int_of_z o.o_burst + 1) * 1000000000
+        | None -> false) !tainted in
+      if List.exists (fun k -> lim_lookup k !tbl <> None && not (List.exists (addr_eqb k) sure)) !tainted then len_amb := true;
       tbl := fst (lim_step o !tbl e);
-      (* a collected entry is fresh again on both sides *)
-      tainted := List.filter (fun k -> lim_lookup k !tbl <> None) !tainted
+      (* a surely collected entry is fresh again on both sides *)
+      tainted := List.filter (fun k -> not (lim_lookup k !tbl = None && List.exists (addr_eqb k) sure)) !tainted
     | _ -> failwith ("bad op " ^ op)) ops;
   let h = List.rev !hist in
   (* spec: the window bound of C15_bound / C15_bound_gc on the model's own decisions, a few windows per key *)
@@ -106,7 +128,116 @@ let run_limiter (parts : string list) : string =
       | Some k -> if has_gc h then "spec=FAIL:window-bound-exceeded-after-gc:" ^ k else "spec=FAIL:window-bound-exceeded:" ^ k
     end in
   let d = Buffer.contents dec in
-  Printf.sprintf "dec=%s len=%d band=%d || %s" (if d = "" then "-" else d) (List.length !tbl) !nband spec
+  Printf.sprintf "dec=%s len=%s band=%d || %s" (if d = "" then "-" else d)
+    (if !len_amb then "?" else string_of_int (List.length !tbl)) !nband spec
+
+let run_limiter (parts : string list) : string =
+  let f = fields parts in
+  limiter_core (set_default (c15_opts f)) f
+
+(* ---- round 2: the router's configuration mapping (kind limconfig) ---- *)
+let c15_cfg f =
+  { lc_global = z_of_int (match fld_opt f "global" with Some g -> int_of_string g | None -> 0);
+    lc_limit = z_of_int (ifld f "rate"); lc_burst = z_of_int (ifld f "burst");
+    lc_v4 = z_of_int (ifld f "v4"); lc_v6 = z_of_int (ifld f "v6") }
+
+let run_limconfig (parts : string list) : string =
+  let f = fields parts in
+  let c = c15_cfg f in
+  let glob = match cfg_global c with
+    | Some g -> Printf.sprintf "%d/%d" (int_of_z g) (int_of_z g) | None -> "-" in
+  match cfg_client c with
+  | None -> "cl=0 glob=" ^ glob
+  | Some o ->
+    let addrs = List.map c15_addr (split_on ',' (fld f "addrs")) in
+    let keys = List.map (fun a -> match cfg_key c a with Some k -> k | None -> LANone) addrs in
+    (* spec: C15_config_key / C15_config_mapping, executable: the key is the address truncated to the configured
+       mask of its family, the effective masks are the configured masks of their families *)
+    let spec_keys = List.for_all2 (fun a k -> addr_eqb k (cfg_subnet c a)) addrs keys in
+    let spec_masks = o.o_v4 = cfg_mask4 c && o.o_v6 = cfg_mask6 c in
+    let core = limiter_core o f in
+    let core_res, core_spec =
+      (match Str.bounded_split (Str.regexp_string " || ") core 2 with
+       | [a; b] -> a, b | _ -> core, "spec=ok") in
+    let spec = if not spec_masks then "spec=FAIL:effective-masks-differ-from-configured"
+      else if not spec_keys then "spec=FAIL:key-is-not-the-configured-subnet" else core_spec in
+    Printf.sprintf "cl=1 glob=%s eff=%d/%d/%d/%d keys=%s %s || %s" glob (int_of_z o.o_limit) (int_of_z o.o_burst)
+      (int_of_z o.o_v4) (int_of_z o.o_v6) (String.concat "," (List.map c15_fmt_addr keys)) core_res spec
+
+(* ---- round 2: concurrent first arrivals (kind limrace) ---- *)
+(* the harness's addresses: host `host` of subnet number `sub` under prefix length m *)
+let c15_race_addr fam m sub host =
+  if fam = "4" then begin
+    let sh = 32 - m in
+    let x = 0x0A000000 + (sub lsl sh) in
+    let x = if sh > 0 then x lor (host land ((1 lsl sh) - 1) land 0xFF) else x in
+    LA4 (n_of_int x)
+  end else begin
+    let hi = N.add (N.mul (n_of_int 0x20010db8) (n_of_int 4294967296)) (n_of_int (sub lsl (64 - m))) in
+    LA6 (N.add (N.mul hi (N.mul (n_of_int 4294967296) (n_of_int 4294967296))) (n_of_int (host land 0xFFFF)))
+  end
+
+let run_limrace (parts : string list) : string =
+  let f = fields parts in
+  let c = c15_cfg f in
+  match cfg_client c with
+  | None -> "HARNESS-ERROR no client limiter"
+  | Some o ->
+    let g = ifld f "g" and calls = ifld f "calls" and cost = ifld f "cost" and rounds = ifld f "rounds" in
+    let fam = fld f "fam" and mode = fld f "mode" and clock = fld f "clock" in
+    let m = int_of_z (if fam = "4" then o.o_v4 else o.o_v6) in
+    let burst = int_of_z o.o_burst in
+    (* the calls of one round: goroutine-major *)
+    let mk_calls now sub = List.concat (List.init g (fun i ->
+      List.init calls (fun _ -> ((z_of_int now, c15_race_addr fam m sub (i + 1)), z_of_int cost)))) in
+    let key sub = mask_addr o (c15_race_addr fam m sub 1) in
+    (* (a) the interleaving machine with the atomic get-or-create, under a pseudo-random schedule that respects
+       each goroutine's program order; (b) the sequential model on the same arrivals; they must agree *)
+    let seed = ref (Hashtbl.hash (String.concat " " parts) land 0x3FFFFFFF) in
+    let rnd n = seed := (!seed * 1103515245 + 12345) land 0x3FFFFFFF; (!seed lsr 8) mod n in
+    let conc_round now sub =
+      let cs = mk_calls now sub in
+      let cursor = Array.make g 0 and micro = Array.make g 0 in
+      let sched = ref [] in
+      let live = ref (List.init g (fun i -> i)) in
+      while !live <> [] do
+        let i = List.nth !live (rnd (List.length !live)) in
+        sched := (i * calls + cursor.(i)) :: !sched;
+        micro.(i) <- micro.(i) + 1;
+        if micro.(i) = 2 then begin micro.(i) <- 0; cursor.(i) <- cursor.(i) + 1 end;
+        if cursor.(i) >= calls then live := List.filter (fun j -> j <> i) !live
+      done;
+      let st = cc_run true o cs (List.rev_map nat_of_int !sched) in
+      if not (cc_all_done st.cc_pcs) then failwith "schedule incomplete";
+      int_of_z (cc_granted o (key sub) cs st.cc_pcs) in
+    let seq_round tbl now sub =
+      List.fold_left (fun (tbl, adm) ((t, a), n) ->
+        let (tbl', d) = lim_step o tbl (EvAllow (t, a, n)) in
+        (tbl', if d = Some true then adm + int_of_z n else adm)) (tbl, 0) (mk_calls now sub) in
+    let both tbl now sub =
+      let a = conc_round now sub in
+      let (tbl', b) = seq_round tbl now sub in
+      if a <> b then failwith (Printf.sprintf "MODEL-INCONSISTENT conc=%d seq=%d" a b);
+      (tbl', a) in
+    if clock = "real" then Printf.sprintf "r=%d adm=? worst=? ctl=- || spec=ok" rounds
+    else begin
+      let spec a = if a * 1000000000 <= burst * 1000000000 + int_of_z o.o_limit - 1 then "spec=ok"
+        else "spec=FAIL:concurrent-first-arrivals-exceed-burst" in
+      if mode = "fresh" then begin
+        (* every round is the same machine run on a fresh subnet: one round decides all *)
+        let (_, a) = both [] 0 1 in
+        let ctl = min (min burst 3) rounds in
+        Printf.sprintf "r=%d adm=%d..%d ctl=%d || %s" rounds a a ctl (spec a)
+      end else begin
+        let t1 = 61 * 1000000000 in
+        let (tbl, a) = both [] 0 1 in
+        let (tbl, _) = lim_step o tbl (EvGc (z_of_int t1)) in
+        let collected = lim_lookup (key 1) tbl = None in
+        let a2 = if collected then snd (both tbl t1 1) else snd (seq_round tbl t1 1) in
+        Printf.sprintf "r=%d adm=%d..%d adm2=%d..%d coll=%d ctl=%d || %s" rounds a a a2 a2
+          (if collected then rounds else 0) (2 * rounds * burst) (spec (max a a2))
+      end
+    end
 
 let run_limdefaults (parts : string list) : string =
   let f = fields parts in
@@ -127,7 +258,7 @@ let run_limdefaults (parts : string list) : string =
    qq (QUIC query on the client's connection, opened on first use) *)
 let run_admit (parts : string list) : string =
   let f = fields parts in
-  let r = ref (rl_init (z_of_int (ifld f "global")) Z0 (c15_opts f)) in
+  let r = ref (rl_of_config (c15_cfg f) Z0) in
   let conns = ref [] in
   let out = ref [] in
   let name o = match o with
@@ -154,4 +285,6 @@ let run_admit (parts : string list) : string =
 
 let () = register "limiter" run_limiter
 let () = register "limdefaults" run_limdefaults
+let () = register "limconfig" run_limconfig
+let () = register "limrace" run_limrace
 let () = register "admit" run_admit
